@@ -36,6 +36,9 @@ pub enum LinkFault {
     Stall(usize),
     /// replace the whole response
     Status(u16),
+    /// forward the complete header block and `at` body bytes, then close cleanly or reset
+    /// (the header's length varies with a wall-clock header value; the body's does not)
+    CutBody { at: usize, reset: bool },
 }
 
 impl LinkFault {
@@ -46,6 +49,8 @@ impl LinkFault {
             LinkFault::Reset(_) => "reset",
             LinkFault::Stall(_) => "stall",
             LinkFault::Status(_) => "http-status",
+            LinkFault::CutBody { reset: false, .. } => "truncate",
+            LinkFault::CutBody { reset: true, .. } => "reset",
         }
     }
 }
@@ -63,6 +68,8 @@ pub struct NetState {
     pub fragment_conns: BTreeMap<String, usize>,
     pub fired: Vec<String>,
     pub connections: u64,
+    /// every `/fragment` exchange seen: (address, n-th connection to it, header bytes, total response bytes)
+    pub fragment_sizes: Vec<(String, usize, usize, usize)>,
 }
 
 pub struct Net {
@@ -122,14 +129,18 @@ impl Connector for Net {
                     }
                 }
                 let path = String::from_utf8_lossy(&req[..req.len().min(200)]).split_whitespace().nth(1).unwrap_or("").to_string();
+                let mut frag_nth: Option<usize> = None;
                 let fault = if path.starts_with("/fragment") {
                     let mut st = net.st.lock();
                     let n = *st.fragment_conns.get(&addr).unwrap_or(&0);
                     st.fragment_conns.insert(addr.clone(), n + 1);
                     let f = st.fragment_faults.get(&(addr.clone(), n)).cloned();
-                    if let Some(f) = &f {
+                    // a refusal or a replaced response takes effect here; a cut takes effect
+                    // only if the response is longer than the cut (decided below)
+                    if let Some(f @ (LinkFault::Refuse | LinkFault::Status(_))) = &f {
                         st.fired.push(f.kind().to_string());
                     }
+                    frag_nth = Some(n);
                     f
                 } else {
                     None
@@ -151,40 +162,89 @@ impl Connector for Net {
                     return;
                 }
                 // response
-                let mut forwarded = 0usize;
+                let limit = match &fault {
+                    Some(LinkFault::Truncate(k)) | Some(LinkFault::Reset(k)) | Some(LinkFault::Stall(k)) => Some(*k),
+                    _ => None,
+                };
+                if limit.is_some() || frag_nth.is_some() || matches!(fault, Some(LinkFault::CutBody { .. })) {
+                    // a /fragment exchange: take the server's whole response first (its own
+                    // Content-Length says when it is complete), so that its real length
+                    // decides whether a cut at k bytes removes anything
+                    let mut resp: Vec<u8> = Vec::new();
+                    let mut total: Option<usize> = None;
+                    let mut head_len = 0usize;
+                    loop {
+                        if let Some(t) = total {
+                            if resp.len() >= t {
+                                break;
+                            }
+                        }
+                        // a response that declares no length ends when the server goes quiet
+                        let got = if head_len > 0 && total.is_none() {
+                            match tokio::time::timeout(Duration::from_secs(5), b_r.read(&mut buf)).await {
+                                Ok(r) => r,
+                                Err(_) => break,
+                            }
+                        } else {
+                            b_r.read(&mut buf).await
+                        };
+                        match got {
+                            Ok(0) | Err(_) => break,
+                            Ok(n) => {
+                                resp.extend_from_slice(&buf[..n]);
+                                if total.is_none() {
+                                    if let Some(p) = resp.windows(4).position(|w| w == b"\r\n\r\n") {
+                                        let head = String::from_utf8_lossy(&resp[..p]).to_ascii_lowercase();
+                                        head_len = p + 4;
+                                        if let Some(cl) = head.lines().find_map(|l| l.strip_prefix("content-length:").and_then(|v| v.trim().parse::<usize>().ok())) {
+                                            total = Some(p + 4 + cl);
+                                        }
+                                    }
+                                }
+                            }
+                        }
+                    }
+                    if let Some(n) = frag_nth {
+                        net.st.lock().fragment_sizes.push((addr.clone(), n, head_len, resp.len()));
+                    }
+                    let k = match &fault {
+                        Some(LinkFault::CutBody { at, .. }) => head_len + *at,
+                        _ => limit.unwrap_or(usize::MAX),
+                    };
+                    let effective = k < resp.len();
+                    let send = &resp[..k.min(resp.len())];
+                    if effective {
+                        if let Some(f) = &fault {
+                            net.st.lock().fired.push(f.kind().to_string());
+                        }
+                    }
+                    for chunk in send.chunks(16384) {
+                        tokio::time::sleep(Duration::from_millis(1)).await;
+                        if a_w.write_all(chunk).await.is_err() {
+                            return;
+                        }
+                    }
+                    if effective {
+                        match fault {
+                            Some(LinkFault::Truncate(_)) | Some(LinkFault::CutBody { reset: false, .. }) => {
+                                let _ = a_w.shutdown().await;
+                            }
+                            Some(LinkFault::Reset(_)) | Some(LinkFault::CutBody { reset: true, .. }) => r2.store(true, Ordering::SeqCst),
+                            Some(LinkFault::Stall(_)) => tokio::time::sleep(Duration::from_secs(100_000_000)).await,
+                            _ => {}
+                        }
+                        return;
+                    }
+                    let _ = a_w.shutdown().await;
+                    return;
+                }
                 loop {
                     match b_r.read(&mut buf).await {
                         Ok(0) | Err(_) => break,
                         Ok(n) => {
-                            let mut chunk = &buf[..n];
-                            let limit = match &fault {
-                                Some(LinkFault::Truncate(k)) | Some(LinkFault::Reset(k)) | Some(LinkFault::Stall(k)) => Some(*k),
-                                _ => None,
-                            };
-                            if let Some(k) = limit {
-                                if forwarded + chunk.len() > k {
-                                    chunk = &chunk[..k.saturating_sub(forwarded)];
-                                }
-                            }
-                            if !chunk.is_empty() {
-                                tokio::time::sleep(Duration::from_millis(1)).await;
-                                if a_w.write_all(chunk).await.is_err() {
-                                    return;
-                                }
-                                forwarded += chunk.len();
-                            }
-                            if let Some(k) = limit {
-                                if forwarded >= k {
-                                    match fault {
-                                        Some(LinkFault::Truncate(_)) => {
-                                            let _ = a_w.shutdown().await;
-                                        }
-                                        Some(LinkFault::Reset(_)) => r2.store(true, Ordering::SeqCst),
-                                        Some(LinkFault::Stall(_)) => tokio::time::sleep(Duration::from_secs(100_000_000)).await,
-                                        _ => {}
-                                    }
-                                    return;
-                                }
+                            tokio::time::sleep(Duration::from_millis(1)).await;
+                            if a_w.write_all(&buf[..n]).await.is_err() {
+                                return;
                             }
                         }
                     }
@@ -341,6 +401,19 @@ fn text_matches(cell: &Cell, text: Option<&str>) -> bool {
 
 /// Multiset match between Arrow rows and text rows (each a vector of optional cells).
 fn text_rows_match(arrow: &[Row], text: &[Vec<Option<String>>]) -> Result<(), String> {
+    text_rows_match_sql("", arrow, text)
+}
+
+/// As `text_rows_match`; for an unordered page (two executions may pick different rows)
+/// only the number of rows is compared.
+fn text_rows_match_sql(sql: &str, arrow: &[Row], text: &[Vec<Option<String>>]) -> Result<(), String> {
+    if sql.contains(" LIMIT ") && !sql.contains(" ORDER BY ") {
+        return if arrow.len() == text.len() { Ok(()) } else { Err(format!("an unordered page of {} rows was encoded as {} text rows", arrow.len(), text.len())) };
+    }
+    text_rows_match_inner(arrow, text)
+}
+
+fn text_rows_match_inner(arrow: &[Row], text: &[Vec<Option<String>>]) -> Result<(), String> {
     if arrow.len() != text.len() {
         return Err(format!("row count {} (arrow) vs {} (text)", arrow.len(), text.len()));
     }
@@ -549,7 +622,7 @@ pub fn run_c35(_p: &str, _tier: Tier, run_seed: u64, ov: &Value) -> RunOut {
                             if dist_hdr.as_deref() == Some("false") {
                                 if let Ok(q) = ctx.sql(&st.sql).await {
                                     let direct = canon::rows_of(&q.batches);
-                                    if let Err(d) = canon::same_multiset(&direct, &arrow_rows) {
+                                    if let Err(d) = same_rows_or_page(&st.sql, &direct, &arrow_rows) {
                                         out.violations.push(viol("encodes-the-engine-rows", "arrow-body-differs-from-engine", feats.clone(), format!("{}: {d}", st.sql), ctxj.clone()));
                                     }
                                 }
@@ -565,7 +638,7 @@ pub fn run_c35(_p: &str, _tier: Tier, run_seed: u64, ov: &Value) -> RunOut {
                                             .iter()
                                             .map(|o| names.iter().map(|nm| match o.get(nm) { None | Some(Value::Null) => None, Some(Value::String(s)) => Some(s.clone()), Some(v) => Some(v.to_string()) }).collect())
                                             .collect();
-                                        if let Err(d) = text_rows_match(&arrow_rows, &text) {
+                                        if let Err(d) = text_rows_match_sql(&st.sql, &arrow_rows, &text) {
                                             out.violations.push(viol("encodes-the-engine-rows", "json-body-differs", feats.clone(), format!("{}: {d}", st.sql), ctxj.clone()));
                                         } else {
                                             out.bump("probe.json_roundtrip");
@@ -583,7 +656,7 @@ pub fn run_c35(_p: &str, _tier: Tier, run_seed: u64, ov: &Value) -> RunOut {
                                     // a one-column result whose only cell is NULL/empty renders as an empty line: not comparable row by row
                                     let single_col = lossy.first().map(|r| r.len() == 1).unwrap_or(false);
                                     if !(single_col && lossy.iter().any(|r| matches!(r[0], Cell::Null))) {
-                                        if let Err(d) = text_rows_match(&lossy, &text) {
+                                        if let Err(d) = text_rows_match_sql(&st.sql, &lossy, &text) {
                                             out.violations.push(viol("encodes-the-engine-rows", "csv-body-differs", feats.clone(), format!("{}: {d}", st.sql), ctxj.clone()));
                                         } else {
                                             out.bump("probe.csv_roundtrip");
@@ -615,6 +688,185 @@ pub fn run_c35(_p: &str, _tier: Tier, run_seed: u64, ov: &Value) -> RunOut {
     }
     let _ = (ov_usize, QueryError::Parse(String::new()), Family::Filter);
     out
+}
+
+/// C10 at the wire: `POST /sql?distributed=1` against real nodes whose `/fragment`
+/// responses pass through a link that cuts ONE of them at a chosen byte offset (clean
+/// close or reset). The offsets enumerate the real response of that exchange: every
+/// offset in the thorough tier; in the quick tier every offset of the header, the first
+/// 48 and last 48 body bytes, and a seeded sample in between. Whenever the cut removed
+/// at least one byte, the front door must answer with an error status, never 200.
+pub fn run_c10_wire(_p: &str, tier: Tier, run_seed: u64, ov: &Value) -> RunOut {
+    let rng = Rng::new(run_seed);
+    let mut out = RunOut::default();
+    let mut log: Vec<String> = Vec::new();
+    let rt = leaked_runtime(run_seed);
+    let pool = rayon::ThreadPoolBuilder::new().num_threads(1).build().expect("pool");
+    query_engine::verif::knobs::set("subquery.single_thread_runtime", 1);
+    let mut sample = None;
+    let mut er = rng.fork(3);
+    let only_offset = ov_usize(ov, "only_offset");
+    let only_kind = ov.get("only_kind").and_then(|v| v.as_str()).map(String::from);
+    let only_region = ov.get("only_region").and_then(|v| v.as_str()).map(String::from);
+    let sim_ms = pool.install(|| {
+        query_engine::verif::rt::set_query_runtime(Some(rt));
+        let r = rt.block_on(async {
+            let t0 = tokio::time::Instant::now();
+            let mut ov2 = if ov.is_object() { ov.clone() } else { json!({}) };
+            if ov2.get("nodes").is_none() {
+                ov2["nodes"] = json!(2 + er.usize(3));
+            }
+            let sc = build_scenario(&rng, &ov2, sqlgen::ALL_FAMILIES, 6, 0);
+            log.push(sc.world.describe().to_string());
+            let n = sc.world.nodes.len();
+            let net = make_net(&sc.world, &vec![true; n]);
+            query_engine::verif::net::set_connector(Some(net.clone() as Arc<dyn Connector>));
+            for node in &net.nodes {
+                srv::resolve_once(&node.state).await;
+                srv::probe_once(&node.state, Duration::from_millis(1000)).await;
+            }
+            let mut enumerated = 0usize;
+            for (si, st) in sc.stmts.iter().enumerate() {
+                if enumerated >= 2 && only_offset.is_none() {
+                    break;
+                }
+                let x = er.usize(n);
+                let node = &net.nodes[x];
+                {
+                    let mut s = net.st.lock();
+                    s.fragment_faults.clear();
+                    s.fragment_conns.clear();
+                    s.fired.clear();
+                    s.fragment_sizes.clear();
+                }
+                let clean = match post_sql(&node.address, "distributed=1&format=arrow", &st.sql).await {
+                    Ok(o) => o,
+                    Err(e) => {
+                        out.violations.push(viol("front-door-answers", "client-error", vec![], format!("POST /sql to a live node failed at the client: {e}"), json!({"sql": st.sql})));
+                        continue;
+                    }
+                };
+                // fragments to different peers complete in an order real executor threads decide
+                let mut sizes = net.st.lock().fragment_sizes.clone();
+                sizes.sort();
+                if clean.status != 200 || clean.header("x-qe-distributed") != Some("true") || sizes.is_empty() {
+                    out.bump("n.wire_statement_not_distributed");
+                    log.push(format!("{si} {} skipped status={} frags={}", st.sql, clean.status, sizes.len()));
+                    continue;
+                }
+                let clean_rows = decode_arrow(&clean.body).unwrap_or_default();
+                let (addr, nth, head_len, total) = er.pick(&sizes).clone();
+                out.bump("probe.wire_exchange_recorded");
+                enumerated += 1;
+                // cuts: (in_body, index); header indices are absolute, body indices are relative
+                // to the end of the header block
+                let body_len = total - head_len;
+                let mut cuts: Vec<(bool, usize)> = Vec::new();
+                if let Some(k) = only_offset {
+                    cuts.push((only_region.as_deref() != Some("head"), k));
+                } else if tier == Tier::Thorough {
+                    cuts.extend((0..head_len).map(|i| (false, i)));
+                    cuts.extend((0..body_len).map(|j| (true, j)));
+                } else {
+                    cuts.extend((0..head_len).map(|i| (false, i)));
+                    let mut b: Vec<usize> = (0..body_len.min(48)).collect();
+                    b.extend(body_len.saturating_sub(48)..body_len);
+                    for _ in 0..24 {
+                        b.push(er.usize(body_len.max(1)));
+                    }
+                    b.sort();
+                    b.dedup();
+                    b.retain(|j| *j < body_len);
+                    cuts.extend(b.into_iter().map(|j| (true, j)));
+                }
+                if cuts.iter().filter(|c| c.0).count() == body_len && only_offset.is_none() {
+                    out.bump("probe.wire_response_fully_enumerated");
+                }
+                // the header's length is not part of the log: it carries a wall-clock value
+                log.push(format!("{si} {} frag=({addr},{nth}) body={body_len} body_cuts={}", st.sql, cuts.iter().filter(|c| c.0).count()));
+                let mut rejected = 0usize;
+                let mut not_effective = 0usize;
+                let mut accepted = 0usize;
+                for (oi, (in_body, k)) in cuts.iter().enumerate() {
+                    let kind = match only_kind.as_deref() {
+                        Some("reset") => "reset",
+                        Some(_) => "truncate",
+                        None => if oi % 4 == 3 { "reset" } else { "truncate" },
+                    };
+                    let f = match (*in_body, kind == "reset") {
+                        (true, r) => LinkFault::CutBody { at: *k, reset: r },
+                        (false, true) => LinkFault::Reset(*k),
+                        (false, false) => LinkFault::Truncate(*k),
+                    };
+                    {
+                        let mut s = net.st.lock();
+                        s.fragment_faults.clear();
+                        s.fragment_conns.clear();
+                        s.fired.clear();
+                        s.fragment_sizes.clear();
+                        s.fragment_faults.insert((addr.clone(), nth), f);
+                    }
+                    out.bump(&format!("fault.wire-{kind}.armed"));
+                    let got = post_sql(&node.address, "distributed=1&format=arrow", &st.sql).await;
+                    let fired = net.st.lock().fired.clone();
+                    if fired.is_empty() {
+                        // the exchange was not longer than the cut this time (or was not made)
+                        not_effective += 1;
+                        continue;
+                    }
+                    out.bump(&format!("fault.wire-{kind}.fired"));
+                    let region = if !*in_body { "cut:header" } else if *k + 8 >= body_len { "cut:last-bytes" } else { "cut:body" };
+                    out.case_hashes.push(fnv(format!("{kind}|{in_body}|{k}|{}", st.family).as_bytes()) ^ fnv(st.sql.as_bytes()));
+                    match got {
+                        Ok(o) if o.status == 200 => {
+                            accepted += 1;
+                            let rows = decode_arrow(&o.body).map(|r| r.len() as i64).unwrap_or(-1);
+                            let mut v = viol(
+                                "failed-fragment-fails-query",
+                                "ok-despite-cut-fragment-response",
+                                vec![format!("family:{}", st.family), format!("fault:wire-{kind}"), region.to_string()],
+                                format!("{}: the /fragment response from {addr} ({body_len}-byte body) was cut after {} {k} bytes ({kind}) but POST /sql?distributed=1 answered 200 with {rows} rows (fault-free: {})", st.sql, if *in_body { "the header and" } else { "only" }, clean_rows.len()),
+                                json!({"stmt_index": si, "sql": st.sql, "offset": k, "region": if *in_body { "body" } else { "head" }, "body_len": body_len, "kind": kind, "nodes": n}),
+                            );
+                            let mut o2 = if ov.is_object() { ov.clone() } else { json!({}) };
+                            o2["wire"] = json!(true);
+                            v.overrides = o2;
+                            out.violations.push(v);
+                        }
+                        Ok(_) | Err(_) => rejected += 1,
+                    }
+                }
+                if rejected > 0 {
+                    out.bump("probe.wire_cut_rejected");
+                }
+                out.add("n.wire_cuts_rejected", rejected as u64);
+                out.add("n.wire_cuts_not_effective", not_effective as u64);
+                log.push(format!("{si} accepted={accepted}"));
+            }
+            query_engine::verif::net::set_connector(None);
+            sample = Some(json!({"layer": "wire", "world": sc.world.describe(), "log": log.iter().skip(1).take(4).collect::<Vec<_>>()}));
+            let ms = t0.elapsed().as_millis() as u64;
+            drop(net);
+            ms
+        });
+        query_engine::verif::rt::set_query_runtime(None);
+        r
+    });
+    out.sim_ms = sim_ms;
+    out.sample = sample;
+    out.log_hash = fnv(log.join("\n").as_bytes());
+    let mut seen = std::collections::BTreeSet::new();
+    out.violations.retain(|v| seen.insert((v.clause.clone(), v.symptom.clone(), v.features.clone())));
+    out
+}
+
+/// Two executions of one statement: the same multiset of rows, except for an unordered
+/// page (LIMIT without ORDER BY), where only the number of rows is specified.
+fn same_rows_or_page(sql: &str, a: &[Row], b: &[Row]) -> Result<(), String> {
+    if sql.contains(" LIMIT ") && !sql.contains(" ORDER BY ") {
+        return if a.len() == b.len() { Ok(()) } else { Err(format!("an unordered page of {} rows came back with {} rows", a.len(), b.len())) };
+    }
+    canon::same_multiset(a, b)
 }
 
 fn schema_names(arrow_body: &[u8]) -> Vec<String> {
@@ -734,6 +986,15 @@ pub fn run_c34(_p: &str, _tier: Tier, run_seed: u64, ov: &Value) -> RunOut {
             stmts.push(format!("SELECT id FROM {} WHERE id < 0", big.name));
             stmts.push(format!("SELECT COUNT(*) FROM {}", big.name));
             stmts.push(format!("SELECT id FROM {0} UNION ALL SELECT id FROM {0} UNION ALL SELECT id FROM {0} UNION ALL SELECT id FROM {0}", big.name));
+            // results that reach the encoder as ONE batch of more than 4096 rows (a sort emits a
+            // single batch), of a seeded size: the re-chunking into 4096-row messages must
+            // lose nothing whatever the remainder is
+            let total4 = big.rows * 4;
+            if total4 > 4097 {
+                let n = 4097 + er.usize(total4 - 4097);
+                stmts.push(format!("SELECT id FROM (SELECT id FROM {0} UNION ALL SELECT id FROM {0} UNION ALL SELECT id FROM {0} UNION ALL SELECT id FROM {0}) u ORDER BY id LIMIT {n}", big.name));
+                stmts.push(format!("SELECT id FROM (SELECT id FROM {0} UNION ALL SELECT id FROM {0} UNION ALL SELECT id FROM {0} UNION ALL SELECT id FROM {0}) u ORDER BY id", big.name));
+            }
             stmts.push(format!("SELECT no_such_column FROM {}", big.name));
             stmts.push("SELECT * FROM no_such_table".to_string());
             stmts.push("SELEC 1".to_string());
@@ -773,7 +1034,7 @@ pub fn run_c34(_p: &str, _tier: Tier, run_seed: u64, ov: &Value) -> RunOut {
                         if fo.rows.is_empty() {
                             out.bump("probe.empty_result");
                         }
-                        if let Err(d) = canon::same_multiset(&hr, &fo.rows) {
+                        if let Err(d) = same_rows_or_page(sql, &hr, &fo.rows) {
                             let mut f = feats.clone();
                             if let Some(c) = node.state.context() {
                                 f.extend(crate::kit::planfeat::plan_features(&c, sql));
